@@ -1,0 +1,36 @@
+//go:build verif
+
+/*
+ * Verification hooks (guard: build tag "verif"): read-only views for the external harness.
+ */
+
+package table
+
+import (
+	"crypto/aes"
+
+	"github.com/dgraph-io/badger/v4/fb"
+)
+
+// VerifBlockIVs returns, for an encrypted table, the IV stored at the end of every data block and
+// the IV of the index block; nil for a table without a data key.
+func (t *Table) VerifBlockIVs() (blocks [][]byte, index []byte) {
+	if !t.shouldDecrypt() {
+		return nil, nil
+	}
+	for i := 0; i < t.offsetsLength(); i++ {
+		var ko fb.BlockOffset
+		if !t.offsets(&ko, i) {
+			break
+		}
+		data, err := t.read(int(ko.Offset()), int(ko.Len()))
+		if err != nil || len(data) < aes.BlockSize {
+			continue
+		}
+		blocks = append(blocks, append([]byte{}, data[len(data)-aes.BlockSize:]...))
+	}
+	if idx, err := t.read(t.indexStart, t.indexLen); err == nil && len(idx) >= aes.BlockSize {
+		index = append([]byte{}, idx[len(idx)-aes.BlockSize:]...)
+	}
+	return blocks, index
+}
